@@ -46,3 +46,9 @@ pub proof fn lemma_head<T: Buf>(s: Seq<T>)
     requires s.len() > 0,
     ensures flat(s) == s[0]@ + flat(s.skip(1)),
 {}
+
+// s.skip(a).skip(b) == s.skip(a + b), available to the solver without explicit calls where `broadcast use`d
+pub broadcast proof fn lemma_skip_skip<A>(s: Seq<A>, a: int, b: int)
+    requires 0 <= a, 0 <= b, a + b <= s.len(),
+    ensures #[trigger] s.skip(a).skip(b) == s.skip(a + b),
+{ assert(s.skip(a).skip(b) =~= s.skip(a + b)); }
